@@ -168,3 +168,161 @@ def cmp_tables(expected: dict, observed: dict, what: str) -> dict | None:
         if not close(v, observed[n]):
             return {"what": what, "name": n, "expected": v, "observed": observed[n]}
     return None
+
+
+# ---- C17: abstract document (spec/SbmlDoc.tla JSON) -> SBML file through libsbml's writer API ---------------------
+_REL = {"lt": "AST_RELATIONAL_LT", "le": "AST_RELATIONAL_LEQ", "gt": "AST_RELATIONAL_GT", "ge": "AST_RELATIONAL_GEQ",
+        "eq": "AST_RELATIONAL_EQ", "ne": "AST_RELATIONAL_NEQ"}
+_BIN = {"add": "AST_PLUS", "sub": "AST_MINUS", "mul": "AST_TIMES", "div": "AST_DIVIDE", "pow": "AST_POWER"}
+_FN = {"exp": "AST_FUNCTION_EXP", "log": "AST_FUNCTION_LN", "sqrt": "AST_FUNCTION_ROOT", "sin": "AST_FUNCTION_SIN",
+       "cos": "AST_FUNCTION_COS", "tanh": "AST_FUNCTION_TANH", "floor": "AST_FUNCTION_FLOOR", "ceil": "AST_FUNCTION_CEILING"}
+
+
+def ast_of(e: dict, flatten: bool = False):
+    """Expr.tla AST (JSON) -> libsbml.ASTNode.  Only constructs whose SBML meaning equals Expr's are accepted."""
+    import libsbml
+
+    def node(typ, *kids):
+        n = libsbml.ASTNode(getattr(libsbml, typ))
+        for k in kids:
+            n.addChild(k)
+        return n
+
+    r = lambda x: ast_of(x, flatten)  # noqa: E731
+    k = e["k"]
+    if k == "num":
+        fr = frac(e["v"])
+        if fr.denominator == 1:
+            n = libsbml.ASTNode(libsbml.AST_INTEGER)
+            n.setValue(int(fr.numerator))
+            return n
+        n = libsbml.ASTNode(libsbml.AST_RATIONAL)
+        n.setValue(int(fr.numerator), int(fr.denominator))
+        return n
+    if k == "bool":
+        return libsbml.ASTNode(libsbml.AST_CONSTANT_TRUE if e["val"] else libsbml.AST_CONSTANT_FALSE)
+    if k == "var":
+        if e["name"] == "time":
+            n = libsbml.ASTNode(libsbml.AST_NAME_TIME)
+            n.setName("time")
+            return n
+        n = libsbml.ASTNode(libsbml.AST_NAME)
+        n.setName(e["name"])
+        return n
+    if k == "const" and e["name"] == "pi":
+        return libsbml.ASTNode(libsbml.AST_CONSTANT_PI)
+    if k == "neg":
+        return node("AST_MINUS", r(e["a"]))
+    if k == "abs":
+        return node("AST_FUNCTION_ABS", r(e["a"]))
+    if k == "not":
+        return node("AST_LOGICAL_NOT", r(e["a"]))
+    if k in _BIN:
+        return node(_BIN[k], r(e["a"]), r(e["b"]))
+    if k in ("min", "max"):
+        return node("AST_FUNCTION_MIN" if k == "min" else "AST_FUNCTION_MAX", *[r(x) for x in e["args"]])
+    if k in ("and", "or"):
+        return node("AST_LOGICAL_AND" if k == "and" else "AST_LOGICAL_OR", *[r(x) for x in e["args"]])
+    if k == "cmp":
+        if len(e["ops"]) != 1:
+            raise ValueError("chained comparisons are not part of the document family")
+        return node(_REL[e["ops"][0]], r(e["args"][0]), r(e["args"][1]))
+    if k == "ite":
+        # piecewise(value, condition, ..., otherwise); a nested else-branch may be flattened into further pieces
+        kids = [r(e["a"]), r(e["c"])]
+        rest = e["b"]
+        while flatten and rest["k"] == "ite":
+            kids += [r(rest["a"]), r(rest["c"])]
+            rest = rest["b"]
+        kids.append(r(rest))
+        return node("AST_FUNCTION_PIECEWISE", *kids)
+    if k == "call":
+        n = libsbml.ASTNode(libsbml.AST_FUNCTION)
+        n.setName(e["name"])
+        for x in e["args"]:
+            n.addChild(r(x))
+        return n
+    if k == "fn":
+        return node(_FN[e["name"]], *[r(x) for x in e["args"]])
+    raise ValueError(f"expression tag {k!r} has no unambiguous SBML counterpart")
+
+
+def _ok(rc, what: str):
+    import libsbml
+
+    if rc != libsbml.LIBSBML_OPERATION_SUCCESS:
+        raise RuntimeError(f"libsbml refused {what}: {rc}")
+
+
+def write_doc(doc: dict, path: Path, flatten: bool = False) -> Path:
+    """Render the abstract document with libsbml (level 3 version 2).  Raises if libsbml reports an error."""
+    import libsbml
+
+    d = libsbml.SBMLDocument(3, 2)
+    m = d.createModel()
+    _ok(m.setId("doc"), "model id")
+    for cid, c in fn_to_dict(doc["comps"]).items():
+        x = m.createCompartment()
+        _ok(x.setId(cid), f"compartment id {cid}")
+        x.setConstant(True)
+        x.setSize(float(frac(c["size"])))
+        x.setSpatialDimensions(3)
+    for s in doc["species"]:
+        x = m.createSpecies()
+        _ok(x.setId(s["id"]), f"species id {s['id']}")
+        x.setCompartment(s["comp"])
+        x.setHasOnlySubstanceUnits(False)
+        x.setBoundaryCondition(bool(s["boundary"]))
+        x.setConstant(bool(s["constant"]))
+        x.setInitialConcentration(float(frac(s["init"])))
+    for pid, p in fn_to_dict(doc["pars"]).items():
+        x = m.createParameter()
+        _ok(x.setId(pid), f"parameter id {pid}")
+        x.setConstant(bool(p["constant"]))
+        x.setValue(float(frac(p["v"])))
+    for fid, f in fn_to_dict(doc["fundefs"]).items():
+        x = m.createFunctionDefinition()
+        _ok(x.setId(fid), f"function id {fid}")
+        lam = libsbml.ASTNode(libsbml.AST_LAMBDA)
+        for prm in f["params"]:
+            n = libsbml.ASTNode(libsbml.AST_NAME)
+            n.setName(prm)
+            lam.addChild(n)
+        lam.addChild(ast_of(f["e"], flatten))
+        _ok(x.setMath(lam), f"function body {fid}")
+    for sym, e in fn_to_dict(doc["ias"]).items():
+        x = m.createInitialAssignment()
+        _ok(x.setSymbol(sym), f"initial assignment {sym}")
+        _ok(x.setMath(ast_of(e, flatten)), f"initial assignment math {sym}")
+    for var, e in fn_to_dict(doc["rules"]).items():
+        x = m.createAssignmentRule()
+        _ok(x.setVariable(var), f"rule {var}")
+        _ok(x.setMath(ast_of(e, flatten)), f"rule math {var}")
+    for rid, r in fn_to_dict(doc["rxns"]).items():
+        x = m.createReaction()
+        _ok(x.setId(rid), f"reaction id {rid}")
+        x.setReversible(False)
+        for side, mk in (("reactants", x.createReactant), ("products", x.createProduct)):
+            for sr in r[side]:
+                y = mk()
+                y.setSpecies(sr["species"])
+                if sr["st"]["k"] == "num":
+                    y.setStoichiometry(float(frac(sr["st"]["v"])))
+                    y.setConstant(True)
+                else:
+                    _ok(y.setId(sr["st"]["id"]), f"species reference id {sr['st']['id']}")
+                    y.setConstant(False)
+        for mod in r.get("modifiers", []):
+            y = x.createModifier()
+            y.setSpecies(mod)
+        kl = x.createKineticLaw()
+        _ok(kl.setMath(ast_of(r["kl"], flatten)), f"kinetic law {rid}")
+    d.checkInternalConsistency()
+    errs = [d.getError(j).getMessage() for j in range(d.getNumErrors())
+            if d.getError(j).getSeverity() >= libsbml.LIBSBML_SEV_ERROR]
+    if errs:
+        raise RuntimeError(f"libsbml reports errors for the rendered document: {errs[:3]}")
+    path.parent.mkdir(parents=True, exist_ok=True)
+    if not libsbml.writeSBMLToFile(d, str(path)):
+        raise RuntimeError("libsbml could not write the document")
+    return path
